@@ -330,8 +330,19 @@ func (u *Unit) evalBuiltin(st *State, e *ast.CallExpr, name string) Term {
 		}
 		return Term{Tuple: []Term{}}
 	case "clear":
-		u.eval(st, e.Args[0])
-		u.unsupportedf(e.Pos(), "clear() abstracted")
+		a := u.eval(st, e.Args[0])
+		if a.T != nil {
+			if sl, ok := a.T.Underlying().(*types.Slice); ok {
+				// clear(s): every element of s becomes the zero value, nothing else changes
+				u.havocSliceElems(st, a)
+				k := u.c.fresh("k", u.c.idxSort())
+				in := and(u.c.idxLe(u.c.idxConst(0), k), u.c.idxLt(k, sLen(a.S)))
+				el := u.sliceElem(st, a, k)
+				u.assumeForall(st, k, u.c.idxSort(), implies(in, eq(el.S, u.zeroOf(sl.Elem()).S)), el.S)
+				return Term{Tuple: []Term{}}
+			}
+		}
+		u.unsupportedf(e.Pos(), "clear() of a map abstracted")
 		u.havocAllHeaps(st)
 		return Term{Tuple: []Term{}}
 	case "close", "print", "println":
@@ -979,7 +990,12 @@ func (u *Unit) callFunc(st *State, e *ast.CallExpr, callee *types.Func, recvExpr
 	}
 	ca, after := u.evalArgs(st, e, sig, recvExpr, callee)
 	ca.isig = sig
-	if ct, _ := u.eng.contractFor(callee); ct != nil && ct.Inline && callee.Pkg() == u.pkg.Types && !sig.Variadic() {
+	ct, _ := u.eng.contractFor(callee)
+	inl := ct != nil && ct.Inline
+	if ct == nil && callee.Pkg() == u.pkg.Types && u.eng.isNewFunc(u.pkgName, calleeKey(callee.Origin())) {
+		inl = true // a helper added after the contracts were written (bindings.go)
+	}
+	if inl && callee.Pkg() == u.pkg.Types && !sig.Variadic() {
 		if fd, _ := u.eng.findFunc(u.pkg, calleeKey(callee.Origin())); fd != nil && fd.Body != nil {
 			res := u.execDeclInline(st, e, callee, fd, ca.recv, ca.args)
 			for _, f := range after {
@@ -1170,8 +1186,12 @@ func (u *Unit) fncallFor(e *ast.CallExpr) (*FuncContract, string) {
 	var spec *FuncContract
 	skey := key
 	if site >= 0 {
-		skey = fmt.Sprintf("%s#%d", key, site)
-		spec = u.ct.FnCalls[skey]
+		if b := u.baseSite(key, site); b >= 0 {
+			skey = fmt.Sprintf("%s#%d", key, b)
+			spec = u.ct.FnCalls[skey]
+		} else {
+			skey = fmt.Sprintf("%s#new%d", key, site) // a call the contract was not written for: general clauses only
+		}
 	}
 	switch {
 	case gen != nil && spec != nil:
@@ -1324,6 +1344,7 @@ func (u *Unit) spawnContracted(st *State, e *ast.CallExpr) bool {
 			names[p.Name()] = a
 		}
 	}
+	u.eng.aliasSigNames(names, callee, sig, "params")
 	pre := st.clone()
 	env := &SpecEnv{u: u, st: st, old: pre, names: names, cs: cset, pkg: callee.Pkg(), calleeSig: sig}
 	for i, r := range ct.Requires {
@@ -1404,6 +1425,7 @@ func (u *Unit) applyContract(st *State, e *ast.CallExpr, callee *types.Func, ct 
 			names[p.Name()] = a
 		}
 	}
+	u.eng.aliasSigNames(names, callee, sig, "params")
 	pre := st.clone()
 	env := &SpecEnv{u: u, st: st, old: pre, names: names, cs: cset, pkg: callee.Pkg(), calleeSig: sig}
 	for i, r := range ct.Requires {
@@ -1503,6 +1525,7 @@ func (u *Unit) applyContract(st *State, e *ast.CallExpr, callee *types.Func, ct 
 		}
 		names[fmt.Sprintf("result%d", i)] = rs[i]
 	}
+	u.eng.aliasSigNames(names, callee, sig, "results")
 	if len(rs) >= 1 {
 		names["result"] = rs[0]
 	}
